@@ -63,6 +63,12 @@ impl VariableMap {
                 self.next_id += 1;
                 let variable_id = VariableId::from_usize(id);
                 entry.insert(variable_id);
+                #[cfg(resolvo_verif)]
+                crate::verif::emit(|| crate::verif::Event::Var {
+                    var: id as u32,
+                    solvable: Some(solvable_id.0),
+                    name: None,
+                });
                 self.origins
                     .insert(variable_id, VariableOrigin::Solvable(solvable_id));
                 variable_id
@@ -94,6 +100,12 @@ impl VariableMap {
         let id = self.next_id;
         self.next_id += 1;
         let variable_id = VariableId::from_usize(id);
+        #[cfg(resolvo_verif)]
+        crate::verif::emit(|| crate::verif::Event::Var {
+            var: id as u32,
+            solvable: None,
+            name: Some(name.0),
+        });
         self.origins
             .insert(variable_id, VariableOrigin::ForbidMultiple(name));
         variable_id
